@@ -78,7 +78,8 @@ def series_case(draw, tier):
     ncont = draw(st.integers(0, min(4, n - 2)))
     pos = draw(st.lists(st.integers(0, n - 1), min_size=ncont,
                         max_size=ncont, unique=True))
-    cont = [[p, draw(st.sampled_from(["obs", "sim", "both"])),
+    # ("member": one ensemble member only, the simulation itself is kept)
+    cont = [[p, draw(st.sampled_from(["obs", "sim", "both", "member"])),
              draw(st.sampled_from(["nan", "inf", "-inf", "neg"]))]
             for p in sorted(pos)]
     return {"n": n, "mag": mag, "spread": spread, "z": z, "e": e,
@@ -280,6 +281,8 @@ def series_oracle(case):
             if which in ("sim", "both"):
                 s2[p] = v
                 e2[p, :] = v
+            if which == "member":
+                e2[p, (p * 7) % e2.shape[1]] = v
         to2, ts2 = trans.forward(o2), trans.forward(s2)
         keep = np.isfinite(to2) & np.isfinite(ts2)
         removed = int((~keep).sum())
